@@ -149,7 +149,7 @@ fn run_deep(ctx: &Ctx, cfg: &Cfg, bound: usize, grid1: usize, grid2: usize, obs:
         ctx.add_states(stats.steps);
         ctx.add_transitions(stats.steps);
         ctx.count(&format!("E2 bound={bound} executions"), stats.executions);
-        if std::env::var("VERIF_DEBUG").is_ok() {
+        if std::env::var("VERIF_DEBUG2").is_ok() {
             eprintln!("  run_deep {:?} b={bound} [{rname}] len={} execs={} steps={}", cfg, run.len(), stats.executions, stats.steps);
         }
     }
@@ -263,7 +263,7 @@ pub fn explore(ctx: &Ctx, obs: &Observer) {
         struct D<'a>(&'a Cfg, std::time::Instant);
         impl Drop for D<'_> {
             fn drop(&mut self) {
-                if std::env::var("VERIF_DEBUG").is_ok() {
+                if std::env::var("VERIF_DEBUG2").is_ok() {
                     eprintln!("cfg {:?}: {:.1}s", self.0, self.1.elapsed().as_secs_f64());
                 }
             }
